@@ -134,3 +134,34 @@ def add_ideal_obligation(S, id, hyps_eq, goal_pairs, timeout=60, fallback_hyps=N
     ob = S.add(id, hy, tm.and_(*[tm.eq(l, r) for l, r in goal_pairs]), replay=replay, note=note + ' [ideal: %s]' % detail)
     ob.seconds += secs
     return ob
+
+
+def prove_eq_linear(hyps_eq, goal_pairs, unknown_prefix='G', timeout=60):
+    """Hypotheses linear in the symbols whose name starts with ``unknown_prefix`` (Gram symbols), with
+    coefficients rational in the remaining symbols: Gaussian elimination over the fraction field, then
+    the goals must vanish identically after substitution."""
+    t0 = time.time()
+    conv = Conv()
+    old = signal.signal(signal.SIGALRM, _alarm)
+    signal.alarm(int(timeout))
+    try:
+        eqs = [sp.together(conv.tr(l) - conv.tr(r)) for (l, r) in hyps_eq]
+        eqs = [sp.fraction(e)[0] for e in eqs]
+        goals = [sp.together(conv.tr(l) - conv.tr(r)) for (l, r) in goal_pairs]
+        syms = sorted(set().union(*[e.free_symbols for e in eqs + goals]), key=lambda s: s.name)
+        unk = [s for s in syms if s.name.startswith(unknown_prefix)]
+        sol = sp.solve(eqs, unk, dict=True)
+        if not sol:
+            return 'unknown', 'linear system has no solution (inconsistent hypotheses?)', time.time() - t0
+        for g in goals:
+            r = sp.simplify(g.subs(sol[0]))
+            if r != 0:
+                return 'unknown', 'residual %s' % str(r)[:300], time.time() - t0
+        return 'proved', 'goal vanishes after eliminating %d of %d Gram symbols by the linear hypotheses' % (len(sol[0]), len(unk)), time.time() - t0
+    except _Timeout:
+        return 'unknown', 'timeout after %ds' % timeout, time.time() - t0
+    except Unsupported as e:
+        return 'unknown', str(e), time.time() - t0
+    finally:
+        signal.alarm(0)
+        signal.signal(signal.SIGALRM, old)
